@@ -9,7 +9,7 @@ import types
 import queue as _real_queue
 
 from ..core import lean, attach
-from ..core.baton import Sched, BLoop
+from ..core.baton import Sched, BLoop, Hang
 from ..core.common import Outcome, fingerprint
 from ..core.par import run_chunks, mark
 
@@ -39,6 +39,17 @@ RULE = ('sources of length 0..6 (generator, iterator, list, range; async generat
         'thread alive, loop responsiveness; distinct = distinct (bridge, source, schedule)')
 
 TABLE = [None, 0, '', False, [], 0.0, 1, 'x', (), 2]
+
+
+def bridged_exc(kind):
+    """Errors of the kind a source really fails with, which asyncio's future chaining does not carry over as they are."""
+    if kind == 1:
+        e = TimeoutError('read timed out')
+        e.__cause__ = OSError('socket')
+        return e
+    if kind == 2:
+        return concurrent.futures.CancelledError('a cancelled job asked for its result')
+    return concurrent.futures.InvalidStateError('source')
 
 
 class QuietBoom(Exception):
@@ -213,6 +224,9 @@ def gen_case(rng):
     case = {'kind': kind, 'ids': ids, 'fail': fail, 'delays': delays, 'cons_delay': cons_delay}
     if fail is not None and rng.random() < 0.3:
         case['falsy'] = True        # the source fails with an exception whose truth value is false
+    elif fail is not None and rng.random() < 0.3:
+        # ... or with one of the classes that futures bridging threads and loops replace by copies / other classes
+        case['exckind'] = rng.choice([1, 2, 3])
     if kind == 'async:gen' and n >= 2 and fail is None and rng.random() < 0.3:
         # the consumer stops early: it takes k elements and closes the async iterator while the source still has
         # (blocking) steps to go
@@ -237,7 +251,7 @@ def run_case(case, seed, pct=0, choices=None):
                           (_real_queue.SimpleQueue, CoopQueue), (asyncio.new_event_loop, AioProxy.new_event_loop)],
                       (concurrent, concurrent.futures, _real_queue, asyncio))
     ids, fail, delays = case['ids'], case['fail'], case['delays']
-    boom = (QuietBoom if case.get('falsy') else Boom)('source failed')
+    boom = (QuietBoom if case.get('falsy') else Boom)('source failed') if not case.get('exckind') else bridged_exc(case['exckind'])
     res = {'got': [], 'end': 'missing', 'ticks': 0}
 
     def pause(d):
@@ -320,7 +334,9 @@ def run_case(case, seed, pct=0, choices=None):
                             if case['cons_delay']:
                                 await asyncio.sleep(case['cons_delay'])
                         finish(None)
-                    except (Boom, QuietBoom) as e:
+                    except Hang:
+                        raise
+                    except (Exception, asyncio.CancelledError) as e:
                         finish(e)
                     t.cancel()
                 try:
@@ -338,7 +354,9 @@ def run_case(case, seed, pct=0, choices=None):
                         E.labels.append('g:%d' % ident(x))
                         pause(case['cons_delay'])
                     finish(None)
-                except (Boom, QuietBoom) as e:
+                except Hang:
+                    raise
+                except (Exception, asyncio.CancelledError) as e:
                     finish(e)
                 if own is not None:
                     # second round on the same loop (monitor only: the label trace describes the first round)
